@@ -386,3 +386,71 @@ def ticked_rec(r0, f, turn):
             'attrs': {'coact': r0['attrs']['coact'],
                       'last_seen_turn': ite(is_none(r0['attrs']['last_seen_turn']) and not is_none(turn), turn,
                                             r0['attrs']['last_seen_turn'])}}
+# ---------------------------------------------------------------- C06: snapshot helpers
+
+@spec
+def clampf(x, lo, hi):
+    return ite(x < lo, lo, ite(x > hi, hi, x))
+
+
+@spec
+def round6(x):
+    """round(x, 6): the engine's uninterpreted `round_nd(x, 6)`; the facts assumed about it are listed in c06_snapshot.ROUND_FACTS"""
+    return round(x, 6)
+
+
+@spec
+def edge_id_of(src, dst, rel):
+    return ite(src <= dst, src + '__' + dst + '__' + rel, dst + '__' + src + '__' + rel)
+
+
+@spec
+def is_snap_name(n):
+    """a numbered snapshot body: snap_<digits>.json"""
+    return n.endswith('.json') and n.startswith('snap_') and n[5:-5].isdigit()
+
+
+@spec
+def snap_num(n):
+    return int_value(n[5:-5])
+
+
+@spec
+def ein_src(e):
+    return e.get('src', '')
+
+
+@spec
+def ein_dst(e):
+    return e.get('dst', '')
+
+
+@spec
+def ein_rel(e):
+    return e.get('rel', 'coact')
+
+
+@spec
+def ein_id(e):
+    """canonical key of an input edge record (eid3 = the opaque view of snapshot._edge_id)"""
+    return eid3(ein_src(e), ein_dst(e), ein_rel(e))
+
+
+@spec
+def edge_sanitized(o, e, wmin, wmax, eps):
+    """o is the record `_sanitize_gel_for_write` emits for the input edge record e"""
+    return (o['src'] == ein_src(e) and o['dst'] == ein_dst(e) and o['rel'] == ein_rel(e)
+            and o['weight'] == san_weight(e.get('weight', 0.0), wmin, wmax, eps)
+            and o['updated_at'] == e.get('updated_at') and same_value(o['attrs'], e.get('attrs', {})))
+
+
+@spec
+def wkey(rec):
+    """store key of an exported weight record"""
+    return (rec['target_kind'], rec['target_id'], rec['attr'])
+
+
+@spec
+def san_weight(w, wmin, wmax, eps):
+    """the weight `_sanitize_gel_for_write` stores for an input weight w"""
+    return ite(absr(round6(clampf(w, wmin, wmax))) < eps, 0.0, round6(clampf(w, wmin, wmax)))
